@@ -108,8 +108,10 @@ def to_harness(rows, start_id, attempts):
         at2s = ["none"]
         if ev2 != "none":
             at2 = r["ats"][1] if r["ats"][1] != "any" else "delay"
-            if r["evs"][0] == "BlockedSender" and not at2.startswith("sctp:"):
-                continue    # BlockedSender already ends with the application's close(); only its own race point is new
+            if r["evs"][0] == "BlockedSender" and (not at2.startswith("sctp:") or ev2 != "Close"):
+                # BlockedSender already ends with the application's close(); only its own race point is new. Drop
+                # is not meaningful there: the blocked call's future owns a handle, so the connection is not dropped.
+                continue
             # the sender's wait point is reached once with a stale notify_one permit in hand and once without:
             # both visits are scenarios
             at2s = [at2 + "#1", at2 + "#2"] if at2.startswith("sctp:") else [at2]
